@@ -214,6 +214,77 @@ pub fn check_builder(ctx: &mut Ctx, st: &BuilderState, must_accept: bool) -> Res
     Ok(())
 }
 
+/// A builder taken from a *Board* of the valid position `start` and then edited in place (through
+/// `IndexMut` or the setters, chosen per edit by `sel`): the conversions must judge the edited
+/// state, not the board it came from.
+pub fn check_edited_board_builder(ctx: &mut Ctx, start: &Pos, target: &BuilderState, sel: u64) -> Result<(), Violation> {
+    ctx.eval();
+    let case = || json!({"board_fen": start.fen(), "edited_to": target.to_json(), "sel": sel});
+    ctx.set_case(case());
+    let b0 = match Board::from_str(&start.fen()) {
+        Ok(b) => b,
+        Err(_) => {
+            ctx.reject();
+            return Ok(());
+        }
+    };
+    let mut bb: BoardBuilder = if sel % 2 == 0 { (&b0).into() } else { b0.into() };
+    let mut n_edits = 0;
+    for s in 0..64u8 {
+        let want = target.squares[s as usize];
+        if want == start.at(s) {
+            continue;
+        }
+        n_edits += 1;
+        let q = bridge::sq(s);
+        let via_index = (sel >> (2 + (s % 32))) & 1 == 0;
+        match (want, via_index) {
+            (Some((c, k)), true) => bb[q] = Some((bridge::kind(k), bridge::col(c))),
+            (Some((c, k)), false) => {
+                bb.piece(q, bridge::kind(k), bridge::col(c));
+            }
+            (None, true) => bb[q] = None,
+            (None, false) => {
+                bb.clear_square(q);
+            }
+        }
+    }
+    if target.stm != start.stm {
+        bb.side_to_move(bridge::col(target.stm));
+    }
+    if target.castle != start.castle {
+        bb.castle_rights(chess::Color::White, bridge::rights(target.castle[0], target.castle[1]));
+        bb.castle_rights(chess::Color::Black, bridge::rights(target.castle[2], target.castle[3]));
+    }
+    if target.ep_file != start.ep.map(|t| t & 7) {
+        bb.en_passant(target.ep_file.map(|f| chess::File::from_index(f as usize)));
+    }
+    ctx.class("builder:taken-from-a-board-then-edited");
+    if n_edits > 0 {
+        ctx.nontrivial(fp(&(start, format!("{:?}", target))));
+    }
+    let r = match guarded(|| Board::try_from(&bb)) {
+        Ok(r) => r,
+        Err(e) => return ctx.fail("convert:panic", format!("Board::try_from(&builder) panicked: {}", e), case()),
+    };
+    let mut bb_mut = bb;
+    let r3 = guarded(|| Board::try_from(&mut bb_mut).is_ok());
+    let r2 = guarded(|| Board::try_from(bb).is_ok());
+    if r2 != Ok(r.is_ok()) || r3 != Ok(r.is_ok()) {
+        ctx.fail("convert:entry-points-disagree", "TryFrom<BoardBuilder> / TryFrom<&mut BoardBuilder> and TryFrom<&BoardBuilder> disagree".into(), case())?;
+    }
+    // the same state filled into a fresh builder is the reference for acceptance
+    let fresh = guarded(|| Board::try_from(&target.build()).is_ok());
+    if fresh != Ok(r.is_ok()) {
+        ctx.count("edited_builder_and_fresh_builder_disagree_on_acceptance", 1);
+    }
+    if let Ok(b) = r {
+        check_accepted(ctx, &b, &case)?;
+        exercise(ctx, &b, &case)?;
+    }
+    Ok(())
+}
+
 fn state_of(p: &Pos) -> BuilderState {
     BuilderState { squares: p.board.to_vec(), stm: p.stm, castle: p.castle, ep_file: p.ep.map(|t| t & 7) }
 }
@@ -417,7 +488,9 @@ pub fn check_tape(ctx: &mut Ctx, tape: &[u16]) -> Result<(), Violation> {
                         st.stm = st.stm.other();
                     }
                     ctx.class("builder:perturbed-valid-position");
-                    check_builder(ctx, &st, false)
+                    check_builder(ctx, &st, false)?;
+                    let sel = fp(&format!("{:?}", st));
+                    check_edited_board_builder(ctx, &p, &st, sel)
                 }
                 None => {
                     ctx.reject();
@@ -519,7 +592,7 @@ pub fn run(cfg: &Cfg) -> i32 {
     engine::finish(
         report,
         EvidenceSpec {
-            rule: "cases = (a) standard FENs (six- and four-field, varying clocks) and square-by-square builder states of valid positions (curated, set up directly, after a few plies): must be accepted and parse to that position; (b) those FENs under 1-3 mutation operators (field swap/drop/duplication, any en-passant square, junk castling/side fields, character replace/insert/delete incl. multi-byte, truncation, splice of two FENs, separator removal, digit replaced by that many men); (c) regex-shaped FEN-like text and arbitrary Unicode; (d) arbitrary builder states (2-64 men, 0-3 kings a side, any rights, any en-passant file) and perturbed valid positions. Every conversion must not panic; every accepted board must satisfy the four acceptance conditions and is exercised: MoveGen (len + iterate), status, to_string, get_hash, null_move, is_sane, make_move_new and make_move of every generated move, and for valid positions one level deeper. evaluations = texts + builder states. Non-trivial = non-standard text that is accepted, or builder state with > 16 men on a side, kings != 1+1 or an en-passant file; distinct = input fingerprints.".into(),
+            rule: "cases = (a) standard FENs (six- and four-field, varying clocks) and square-by-square builder states of valid positions (curated, set up directly, after a few plies): must be accepted and parse to that position; (b) those FENs under 1-3 mutation operators (field swap/drop/duplication, any en-passant square, junk castling/side fields, character replace/insert/delete incl. multi-byte, truncation, splice of two FENs, separator removal, digit replaced by that many men); (c) regex-shaped FEN-like text and arbitrary Unicode; (d) arbitrary builder states (2-64 men, 0-3 kings a side, any rights, any en-passant file) and perturbed valid positions, the latter also as a builder taken from the Board of the valid position and then edited in place through IndexMut / the setters. Every conversion must not panic; every accepted board must satisfy the four acceptance conditions and is exercised: MoveGen (len + iterate), status, to_string, get_hash, null_move, is_sane, make_move_new and make_move of every generated move, and for valid positions one level deeper. evaluations = texts + builder states. Non-trivial = non-standard text that is accepted, or builder state with > 16 men on a side, kings != 1+1 or an en-passant file; distinct = input fingerprints.".into(),
             assumptions: vec![
                 "panics, debug assertions (arrayvec capacity, arithmetic overflow) and unsafe-precondition checks of the `checked` profile are the monitors for 'no panic, abort or out-of-bounds access'; the thorough tier adds libFuzzer+ASan targets fen_total / builder_total".into(),
                 "reference attack detection for 'side not to move is not in check'".into(),
@@ -547,6 +620,12 @@ pub fn replay(ctx: &mut Ctx, case: &Value) -> Result<(), Violation> {
         p.ep = st.ep_file.and_then(|f| mk(f as i8, if st.stm == Col::W { 5 } else { 2 }));
         let must = p.validate().is_ok();
         return check_builder(ctx, &st, must);
+    }
+    if let (Some(f), Some(t)) = (case.get("board_fen").and_then(|x| x.as_str()), case.get("edited_to")) {
+        let start = Pos::from_fen(f).map_err(|e| ctx.violation("INFRA", e, Value::Null))?;
+        let st = BuilderState::from_json(t).ok_or_else(|| ctx.violation("INFRA", "bad builder case".into(), Value::Null))?;
+        let sel = case.get("sel").and_then(|x| x.as_u64()).unwrap_or(0);
+        return check_edited_board_builder(ctx, &start, &st, sel);
     }
     Err(ctx.violation("INFRA", "unrecognised C07 case".into(), Value::Null))
 }
